@@ -10,7 +10,7 @@ PATCH=${2:--}
 shift 2; [ "${1:-}" = "--" ] && shift
 D=$(mktemp -d /tmp/utap-tree.XXXXXX)
 git -C /repo worktree add -q --detach "$D" "$REV" || exit 2
-if [ "$PATCH" != "-" ]; then git -C "$D" apply "$PATCH" || { git -C /repo worktree remove --force "$D"; exit 2; }; fi
+if [ "$PATCH" != "-" ]; then PATCH=$(readlink -f "$PATCH"); git -C "$D" apply "$PATCH" || { git -C /repo worktree remove --force "$D"; exit 2; }; fi
 UTAPV_REPO="$D" "$@"
 rc=$?
 git -C /repo worktree remove --force "$D"
